@@ -1,5 +1,5 @@
 """C13 -- solving again gives fresh, consistent answers."""
-from . import state, formula, translate, solveprog, pepsolve
+from . import state, formula, translate, solveprog, pepsolve, entryprog
 
 LEVEL = "other"
 EXPLANATION = ("Per-solve freshness (new wrapper, rebinding of the tracking lists and of the objective leaf, regeneration of class and "
@@ -12,6 +12,7 @@ ASSUMPTIONS = ["equality of returned numbers across solves is not decided (solve
 
 
 def run(ctx):
+    entryprog.r_entry(ctx)       # every call of the public entry constructs its own back-end object and hands that one to the solve root
     state.r_fresh(ctx)
     solveprog.r_solve_program(ctx, {"track", "drain", "duals"})   # nothing left over from an earlier solve is tracked or sent; what is sent is what was just regenerated
     n = state.r_accum(ctx)
